@@ -806,6 +806,13 @@ def r4_rebuild(run, w):
     return False
   ok = False
   wit = None
+  R4_ANCHORS = ("useractions.UserActions.doModifyColumn", "useractions.UserActions.AddReverseColumn",
+                "column.BaseReferenceColumn.recalc_from_reverse_values")
+  if not rec:
+    moved = H.called_elsewhere(w, "recalc_from_reverse_values", R4_ANCHORS)
+    if moved:
+      raise AnalysisError("doModifyColumn: the reverse-column rebuild is not called here but in "
+                          "%s; cannot follow" % ", ".join(moved))
   if rec:
     (rn, rc) = rec[0]
     # the conditions, tested after the schema action, under which the rebuild runs
@@ -857,6 +864,11 @@ def r4_rebuild(run, w):
   rec = [(n, c) for (n, c, nm) in H.calls(fn) if endswith(nm, "recalc_from_reverse_values")]
   if not link:
     raise AnalysisError("AddReverseColumn: linking update (reverseCol=...) not found")
+  if not rec:
+    moved = H.called_elsewhere(w, "recalc_from_reverse_values", R4_ANCHORS)
+    if moved:
+      raise AnalysisError("AddReverseColumn: the fill of the new column is not called here but "
+                          "in %s; cannot follow" % ", ".join(moved))
   ok = bool(rec) and all(cfg.dominated_by(n.id, link) for (n, c) in rec) and \
       all(cfg.postdominated_by(l, {n.id for (n, c) in rec}) for l in link)
   run.ob(R4, fn.qualname, "update(reverseCol=...) -> recalc_from_reverse_values()",
